@@ -2,6 +2,7 @@
 pyhf patchset provides a user-friendly interface for interacting with patchsets.
 """
 
+import copy
 import logging
 import jsonpatch
 from pyhf import exceptions
@@ -316,4 +317,6 @@ class PatchSet:
             workspace (:class:`~pyhf.workspace.Workspace`): The background-only workspace with the patch applied.
         """
         self.verify(spec)
-        return Workspace(self[key].apply(spec))
+        # jsonpatch inserts the values of operations by reference, so later operations
+        # would modify the stored patch: apply a copy of it
+        return Workspace(copy.deepcopy(self[key]).apply(spec))
